@@ -5,6 +5,42 @@ import json, os
 HERE = os.path.dirname(os.path.dirname(os.path.abspath(__file__)))
 
 CLAIMED = {
+    "C08": dict(
+        text="spec/Group.tla: members x schedule with the GENERAL interleaving as Next; TLC checks Solo (a member's results are a function of "
+        "itself and of the records it consumed) over all interleavings and a negative control with a shared flag must violate it; SerialStep "
+        "and ByLineStep are the implementation's two schedules, Keep the breadth-first yield rule. Binding: generated groups are run "
+        "standalone, with the 3 serial and the 3 breadth-first methods (with/without if_all_agree); every member trace in every way is "
+        "validated by RunTrace (one deterministic run machine, so accepted traces are equal runs) and the recorded global schedule of "
+        "_consider_line calls plus the lines handed to the caller are validated by spec/GroupTrace.tla.",
+        note="Trusted: TLC; class-level interposition on CsvPaths.csvpath and CsvPath._consider_line; yielded lines are mapped to records by "
+        "object identity. The general interleaving is checked on the specification only.",
+        technique="TLA+ interleaving spec model-checked with TLC; implementation schedules and member traces validated against the spec",
+        ref="7 (C08)",
+    ),
+    "C09": dict(
+        text="spec/Archive.tla is the run lifecycle (StartRun, AddResult, Save, CompleteRun, Abort; serial vs breadth-first ordering) with "
+        "CompleteMeansAllSaved, SaveAfterAdd, AbortLeavesRecords, AbortedStaysAborted checked by TLC; spec/ArchiveTrace.tla replays the "
+        "recorded ResultsManager calls of real runs as those actions and then requires the projected archive (vars.json, errors.json, "
+        "printouts.txt, data.csv, unmatched.csv parsed back; member manifests valid/completed/error_count/file_fingerprints with hashes "
+        "recomputed from the bytes on disk; run manifest status/all_valid/all_completed/error_count; ResultsManager.is_valid) to agree "
+        "with the in-memory results, completed being computed from the scan AST by Scan.tla.",
+        note="Trusted: TLC; the projector lib/archiverun.py (JSON/CSV parsing by the standard library); printed lines contain no newline. "
+        "Generated groups over files with quotes, delimiters and newlines in extra cells; six methods.",
+        technique="TLA+ lifecycle spec model-checked with TLC; recorded manager calls and archive projection validated against the spec",
+        ref="7 (C09)",
+    ),
+    "C10": dict(
+        text="spec/RunDirs.tla models the clock, the runs with their collision index and :last/:first resolution (ties of one second left open); "
+        "TLC checks FreshDir, DenseIdx, Chronological, LastIsNewest, EarlierUntouched over all sequences of runs (2 groups x new/reused "
+        "instance x 6 methods x 4 clock moves incl. across 12:59->13:00 and midnight). Histories are replayed with a fake clock into real "
+        "CsvPaths instances: after each run the set of run directories must be exactly the spec's (24-hour names), every file of every "
+        "earlier run byte-identical, and $g.results.<prefix>:last/:first must resolve to an admissible run.",
+        note="Trusted: TLC; csvpath.csvpaths.datetime replaced by a fake. Replay: all histories of length <=2 (quick) / <=3 (thorough) with two "
+        "representative methods + random longer histories with four methods; length 5 with all six methods on the specification only.",
+        technique="TLA+ spec model-checked with TLC; TLC-generated histories replayed into the implementation with a fake clock",
+        ref="7 (C10)",
+    ),
+
     "C11": dict(
         text="spec/NamedFiles.tla models the store (source bytes, per-name manifest, stored versions) with Add/Mutate/Remove/NewInstance; TLC "
         "explores all operation sequences up to length 6 on the abstract store (history hidden by a VIEW) checking CurrentOnDisk, "
